@@ -401,7 +401,7 @@ pub fn run(ctx: &mut Ctx) {
 trivial = no record; distinct = distinct sequences of (body kind, size class, prefix sign); oracle = tiling (count, order, data == prefix+body, concat == file[24..]), compressed() <=> BZ magic, decompress(payload record) == payload, decompress(plain) and messages(compressed) are errors, header accessors == written strings / calendar instant"
         .into();
     ctx.floor_evaluations = 100;
-    let total: u64 = ctx.tier.pick(500, 20_000);
+    let total: u64 = ctx.tier.pick(500, 120_000);
     let max_payload = ctx.tier.pick(64 * 1024, 300 * 1024);
     let seed = ctx.seed;
     par_cases(ctx, total, |i, obs| {
